@@ -145,8 +145,31 @@ def r145_frame(ctx, res):
     # mutual perpendicularity and equal length
     A, B = info
     na, nb = txt(frame[0][0]), txt(frame[1][0])
-    mutual = any(txt(_strip_norm(Y)) == na or txt(_strip_norm(X)) == na for _, _, X, Y, _ in B["crosses"]) or \
-        any(txt(_strip_norm(Y)) == nb or txt(_strip_norm(X)) == nb for _, _, X, Y, _ in A["crosses"])
+
+    def aliases(name):
+        """the frame vector and the un-scaled vector it is a multiple of (`radius_v1 = unit_v1 * radius`)"""
+        from ..astutil import single_defs as _sd
+        sd_ = _sd(fi.node, fi.params)
+        out_, cur_ = {name}, name
+        for _ in range(4):
+            d_ = sd_.get(cur_)
+            if isinstance(d_, ast.BinOp) and isinstance(d_.op, (ast.Mult, ast.Div)):
+                vs_ = [x_ for x_ in (d_.left, d_.right) if isinstance(x_, ast.Name) and x_.id in sd_ and is_vectorish(x_)]
+                if len(vs_) == 1:
+                    cur_ = vs_[0].id
+                    out_.add(cur_)
+                    continue
+            break
+        return out_
+    al_a, al_b = aliases(na), aliases(nb)
+    # (a frame vector that is already written out as an expression: the same vector with or without the final .normalized())
+    al_a |= {txt(_strip_norm(frame[0][0]))}
+    al_b |= {txt(_strip_norm(frame[1][0]))}
+    import os as _os
+    if _os.environ.get("G3DSA_DEBUG_FRAME"):
+        print("frame", na, nb, al_a, al_b, [(txt(X), txt(Y), n_) for _, _, X, Y, n_ in A["crosses"]], [(txt(X), txt(Y), n_) for _, _, X, Y, n_ in B["crosses"]])
+    mutual = any(txt(_strip_norm(Y)) in al_a or txt(_strip_norm(X)) in al_a for _, _, X, Y, _ in B["crosses"]) or \
+        any(txt(_strip_norm(Y)) in al_b or txt(_strip_norm(X)) in al_b for _, _, X, Y, _ in A["crosses"])
     unit_ok = True
     for it_, other_name in ((A, nb), (B, na)):
         for d, v, X, Y, normed in it_["crosses"]:
@@ -154,7 +177,7 @@ def r145_frame(ctx, res):
                 continue
             # un-normalised cross product: unit only if both factors are unit and perpendicular: unit normal x other frame vector
             facs = [X, Y]
-            if not (any(is_unit_normal(z) for z in facs) and any(txt(_strip_norm(z)) == other_name for z in facs)):
+            if not (any(is_unit_normal(z) for z in facs) and any(txt(_strip_norm(z)) in (al_b if other_name == nb else al_a) for z in facs)):
                 unit_ok = False
     # (the un-normalised one inherits unit length from the other only if every definition of the other is normalised)
     for it_, other in ((A, B), (B, A)):
